@@ -809,14 +809,16 @@ class t2grid(object):
             itop = np.nanargmax(blockelevs(grid, max_volume))
             return grid.blocklist[itop]
 
-        def find_origin_block(grid):
+        def find_origin_block(grid, max_volume = None):
             """Returns block in bottom layer of rectangular mesh at horizontal
             position corresponding to the origin of the coordinate
             system, defined by the permeability directions assigned to
             the connections. It's assumed that the origin is the first
-            block in the bottom layer.
+            block in the bottom layer. If max_volume is given, only blocks
+            with volume greater than zero and less than max_volume are
+            considered (excluding boundary condition blocks).
             """
-            iorigin = np.nanargmin(blockelevs(grid))
+            iorigin = np.nanargmin(blockelevs(grid, max_volume))
             return grid.blocklist[iorigin]
 
         def con_name_index(con, blkname):
@@ -1012,7 +1014,7 @@ class t2grid(object):
         else:
             if isinstance(origin_block, str): ob = self.block[origin_block]
             elif isinstance(origin_block, t2block): ob = origin_block
-            else: ob = find_origin_block(self)
+            else: ob = find_origin_block(self, atmos_volume)
             if ob is None: raise Exception("Can't find origin block for grid.")
             else:
                 spacings = block_spacings(self, ob, atmos_volume)
